@@ -200,3 +200,23 @@ contract(TU + '.write', 'C13', dict(self=USBT(), frame=Bytes(0, 600, mutable=Tru
 contract(TU + '.read', 'C13', dict(self=USBT(), timeout=Int(0, 1000)),
          name='C13/usb.read', raises={'IOError': []},
          ensures=[('O-nonempty', 'result is None or (len(result) >= 1 and len(result) <= 300)')])
+
+# ---------------------------------------------------------------- C14: who checks CRC_A for Type 2 style targets
+# sense_tta() switches the chip's own receive CRC check off for every Type A target that is neither ISO-DEP nor
+# NFC-DEP (SEL_RES bits 6 and 7 clear: Type 2 Tags, MIFARE Classic/Plus), because their ACK/NAK answers carry none.
+# For those targets the driver itself must verify CRC_A on every longer response - data that nobody checked is
+# never returned.
+T2LIKE = ('target.rid_res is None and target.atr_res is None and target.sel_res is not None and '
+          '(target.sel_res[0] // 32) % 4 == 0')
+for _mod, _what, _use in (('nfc.clf.pn532:', 'pn532', USE),):
+    contract('nfc.clf.pn53x:Device.send_cmd_recv_rsp', 'C14',
+             dict(self=DEV(), target=RTGT(), data=Bytes(1, 262, mutable=True), timeout=Const(0.1)),
+             name='C14/%s.send_cmd_recv_rsp.crc' % _what, raises=DOC, use=_use,
+             ensures=[('O-crc.checked', 'implies(%s and len(result) > 2, was_called("C13/check_crc_a") and '
+                                        'call_ret("C13/check_crc_a") != False)' % T2LIKE)])
+# RC-S380: the driver switches the chip's CRC check off (check_crc = 0) for exactly those targets and verifies itself
+contract(R + 'Device.send_cmd_recv_rsp', 'C14',
+         dict(self=RDEV(), target=RTGT(), data=Bytes(1, 262, mutable=True), timeout=Const(0.1)),
+         name='C14/rcs380.send_cmd_recv_rsp.crc', raises=DOC, use=RUSE,
+         ensures=[('O-crc.checked', 'implies(%s and result is not None and len(result) > 2, '
+                                    'was_called("C13/check_crc_a") and call_ret("C13/check_crc_a") != False)' % T2LIKE)])
